@@ -181,3 +181,78 @@ Proof.
   - rewrite app_nil_r. now apply b64_roundtrip.
   - induction k; cbn; auto.
 Qed.
+
+(* ---------- the query string ---------- *)
+Lemma list_N_eqb_refl a : list_N_eqb a a = true.
+Proof. unfold list_N_eqb. destruct (list_eq_dec N.eq_dec a a); [reflexivity|contradiction]. Qed.
+
+Lemma list_N_eqb_neq a b : a <> b -> list_N_eqb a b = false.
+Proof. intros H. unfold list_N_eqb. destruct (list_eq_dec N.eq_dec a b); [contradiction|reflexivity]. Qed.
+
+Lemma cut_first_dns v : cut_first 61 (dns_key ++ 61%N :: v) = (dns_key, v).
+Proof. reflexivity. Qed.
+
+Definition key_of (p : list N) : list N := fst (cut_first 61 p).
+
+(* whatever pairs stand in front (none of them with the key "dns") and behind: the value of the dns pair *)
+Lemma nethttp_value_decorated ps v qs :
+  (forall p, In p ps -> key_of p <> dns_key) ->
+  value_of_pairs DohNetHttp (ps ++ (dns_key ++ 61%N :: v) :: qs) = v.
+Proof.
+  induction ps as [|p ps IH]; intros H; cbn [app value_of_pairs].
+  - rewrite cut_first_dns. destruct (dns_key ++ 61%N :: v) eqn:X; [discriminate X|].
+    rewrite list_N_eqb_refl. reflexivity.
+  - pose proof (H p (or_introl eq_refl)) as Hp. unfold key_of in Hp.
+    destruct (cut_first 61 p) as [key value] eqn:E. cbn [fst] in Hp.
+    rewrite (list_N_eqb_neq _ _ Hp). destruct p; apply IH; intros q Hq; apply H; now right.
+Qed.
+
+Lemma fasthttp_value_decorated ps v qs :
+  (forall p, In p ps -> pct_decode (key_of p) <> dns_key) ->
+  value_of_pairs DohFastHttp (ps ++ (dns_key ++ 61%N :: v) :: qs) = pct_decode v.
+Proof.
+  induction ps as [|p ps IH]; intros H; cbn [app value_of_pairs].
+  - rewrite cut_first_dns. change (pct_decode dns_key) with dns_key. cbn iota. rewrite list_N_eqb_refl. reflexivity.
+  - pose proof (H p (or_introl eq_refl)) as Hp. unfold key_of in Hp.
+    destruct (cut_first 61 p) as [key value] eqn:E. cbn [fst] in Hp.
+    rewrite (list_N_eqb_neq _ _ Hp).
+    assert (value_of_pairs DohFastHttp (ps ++ (dns_key ++ 61%N :: v) :: qs) = pct_decode v) as R
+      by (apply IH; intros q Hq; apply H; now right).
+    destruct (pct_decode key); destruct (pct_decode value); exact R.
+Qed.
+
+(* splitting a joined list of '&'-free pairs gives the pairs back *)
+Fixpoint join_amp (ps : list (list N)) : list N :=
+  match ps with
+  | [] => []
+  | [p] => p
+  | p :: rest => p ++ 38%N :: join_amp rest
+  end.
+
+Definition amp_free (p : list N) : Prop := Forall (fun c => c <> 38%N) p.
+
+Lemma split_on_pair p : forall cur rest, amp_free p ->
+  split_on 38 (p ++ 38%N :: rest) cur = (rev cur ++ p) :: split_on 38 rest [].
+Proof.
+  induction p as [|c p IH]; intros cur rest F; cbn [app split_on].
+  - change ((38 =? 38)%N) with true. cbn iota. rewrite app_nil_r. reflexivity.
+  - inversion F as [|? ? Hc Fp]; subst. destruct (c =? 38)%N eqn:E; [apply N.eqb_eq in E; contradiction|].
+    rewrite IH by exact Fp. cbn [rev]. rewrite <- app_assoc. reflexivity.
+Qed.
+
+Lemma split_on_last p : forall cur, amp_free p -> split_on 38 p cur = [rev cur ++ p].
+Proof.
+  induction p as [|c p IH]; intros cur F; cbn [split_on].
+  - rewrite app_nil_r. reflexivity.
+  - inversion F as [|? ? Hc Fp]; subst. destruct (c =? 38)%N eqn:E; [apply N.eqb_eq in E; contradiction|].
+    rewrite IH by exact Fp. cbn [rev]. rewrite <- app_assoc. reflexivity.
+Qed.
+
+Lemma split_join ps : ps <> [] -> Forall amp_free ps -> split_on 38 (join_amp ps) [] = ps.
+Proof.
+  induction ps as [|p ps IH]; intros Hne F; [contradiction|].
+  inversion F as [|? ? Fp Fps]; subst. destruct ps as [|q ps].
+  - cbn [join_amp]. rewrite split_on_last by exact Fp. reflexivity.
+  - change (join_amp (p :: q :: ps)) with (p ++ 38%N :: join_amp (q :: ps)).
+    rewrite split_on_pair by exact Fp. cbn [rev app]. f_equal. apply IH; [discriminate|exact Fps].
+Qed.
